@@ -293,6 +293,9 @@ fn gen_poly2(r: &mut Rng, max_holes: usize) -> Poly2 {
     if max_holes >= 2 && r.below(12) == 0 {
         return shared_corner(r);
     }
+    if r.below(24) == 0 {
+        return dart(r);
+    }
     let (family, outer, c, rad): (&'static str, Vec<P2>, P2, f64) = match r.below(7) {
         0 => {
             let n = 3 + r.below(10);
@@ -376,6 +379,23 @@ fn shared_corner(r: &mut Rng) -> Poly2 {
     let outer = reverse_if(r, outer);
     let outer = rotate_start(r, outer);
     Poly2 { family: "shared-corner", outer, holes }
+}
+
+/// a thin chevron: outer apex T, inner apex R a distance `delta` (millimetres to centimetres) straight below it, two wing
+/// tips A and B.  Its only internal diagonal is T--R, while every edge is 5..15 cm long and every corner angle is at least 3
+/// degrees (146 / 3..8 / 202 / 3..8): a well-conditioned polygon, by the property's own definition, whose every triangulation
+/// needs that short chord
+fn dart(r: &mut Rng) -> Poly2 {
+    let delta = r.pick(&[0.004, 0.008, 0.02]);
+    // wing angle theta: the chord TR seen from a wing tip; edge length e ~ delta / sin(theta) must stay >= 5.5 cm
+    let th_max = (delta / 0.055f64).min(0.14).asin().to_degrees();
+    let th = 3.0 + (th_max - 3.0).max(0.) * r.unit();
+    let e = delta / th.to_radians().sin();
+    let s = 0.3 * e;
+    let outer: Vec<P2> = vec![(0., 0.), (-e, -0.5 * delta - s), (0., -delta), (e, -0.5 * delta - s)];
+    let outer = reverse_if(r, outer);
+    let outer = rotate_start(r, outer);
+    Poly2 { family: "dart", outer, holes: vec![] }
 }
 
 /// threshold probe of `is_collinear` (1e-5 on the cross product) inside `push`, `close` and the ear loop, and of the
